@@ -190,6 +190,9 @@ def fresh_value_scenarios():
     out.append(("let a = [[1], [2]]; let b = a + []; push(b[0], 9); push(b, [3]); push(__o, cp(a)); push(__o, cp(b));", ["[[1, 9], [2]]", "[[1, 9], [2], [3]]"]))
     out.append(("let a = [1]; let i = 0; let acc = a; while i < 3 { acc = acc + []; push(acc, i); i = i + 1; } push(__o, cp(a)); push(__o, cp(acc));", ["[1]", "[1, 0, 1, 2]"]))
     out.append(("let a = [1]; let b = a; push(b, 2); fn f(x) { push(x, 3); } f(a); push(__o, cp(a)); push(__o, cp(b));", ["[1, 2, 3]", "[1, 2, 3]"]))
+    out.append(("fn mk() { { let x = 1; return fn() { let y = x; let x = 10; x + y }; } } push(__o, mk()());", ["11"]))
+    out.append(("fn mk() { { { let v = 7; return fn(k) { let w = v + k; let v = 100; [w, v] }; } } } push(__o, mk()(1));", ["[8, 100]"]))
+    out.append(("fn d(a, z) { a / z } push(__o, d(7.5, 2)); push(__o, d(9, 2));", ["3.75f", "4"]))
     out.append(("let s = \"ab\"; let t = s + \"\"; let u = \"\" + s; push(__o, t == s); push(__o, u); push(__o, s * 1);", ["true", "\"ab\"", "\"ab\""]))
     CP = "fn cp(x) { let c = []; let i = 0; while i < len(x) { push(c, x[i]); i = i + 1; } c } "
     return [(CP + t, e) for t, e in out]
